@@ -374,26 +374,32 @@ def corrupted(pairs):
             if pred(s, o):
                 return s, copy.deepcopy(o)
         return None
-    # a statement that returned before stop() was requested is missing from the file when stop() returns
-    def stop_pred(s, o):
-        ev = o["events"]
+    # a statement that returned before stop() was requested (of a running backend) is missing from the file when that
+    # stop() returns
+    def stop_site(o):
+        """(index of the StopRet event, line to remove) for the first stop of a started backend that has one, else None"""
+        ev, up, done, call_done = o["events"], False, [], None
         for i, e in enumerate(ev):
-            if e["e"] == "StopRet" and any(x["e"] == "StartRet" for x in ev[:i]) and e["lines"] and \
-                    any(x["e"] == "LogRet" for x in ev[:i]):
-                return True
-        return False
+            if e["e"] == "StartRet":
+                up = True
+            elif e["e"] == "LogRet":
+                done.append(f"s {e['t']} {e['a']}")
+            elif e["e"] == "StopCall":
+                call_done = list(done) if up else None
+                up = False
+            elif e["e"] == "StopRet" and call_done:
+                hit = [x for x in e["lines"] if x in call_done]
+                if hit:
+                    return i, hit[-1]
+                call_done = None
+        return None
     waits = lambda s: s["attrs"]["wait"] == 1
-    c = first(lambda s, o: waits(s) and stop_pred(s, o))
+    c = first(lambda s, o: waits(s) and stop_site(o) is not None)
     if c:
         s, o = c
-        ev = o["events"]
-        i = max(k for k, e in enumerate(ev) if e["e"] == "StopRet" and e["lines"])
-        j = max(k for k in range(i) if ev[k]["e"] == "StopCall")
-        done = [f"s {e['t']} {e['a']}" for e in ev[:j] if e["e"] == "LogRet"]
-        hit = [x for x in ev[i]["lines"] if x in done]
-        if hit:
-            ev[i]["lines"].remove(hit[-1])
-            out.append(("stop snapshot lacks a completed statement", s, o))
+        i, line = stop_site(o)
+        o["events"][i]["lines"].remove(line)
+        out.append(("stop snapshot lacks a completed statement", s, o))
     # ... but with wait_for_queues_to_empty_before_exit = false the same loss is NOT against C07 (must be accepted)
     c = first(lambda s, o: not waits(s) and s["steps"][-1][0] in "XR" and any(e["e"] == "StartRet" for e in o["events"])
               and any(e["e"] == "LogRet" for e in o["events"]))
